@@ -13,6 +13,7 @@ CellC == [b |-> Ones(9), r |-> <<>>]
 AddrA == [wc |-> Zeros(8), hash |-> Zeros(256)]
 AddrB == [wc |-> Ones(8), hash |-> Msb(256)]
 CC0 == [grams |-> <<>>, other |-> <<>>]
+AugV(es) == [es |-> es, post |-> <<>>]          \* augmented-dictionary value composed here: fork extras are ForkExtraV's
 
 RECURSIVE Menu(_), Base(_), Vary(_), BaseAlt(_), VaryAlt(_), Rich(_, _), RichAlt(_, _)
 Menu(t) ==
@@ -31,13 +32,13 @@ Menu(t) ==
       [] t.k = "CC" -> {CC0, [grams |-> <<7>>, other |-> <<>>], [grams |-> Rep(15, 255), other |-> <<>>],
                         [grams |-> <<1>>, other |-> <<[k |-> NatBits(5, 32), v |-> <<9>>]>>],
                         [grams |-> <<>>, other |-> <<[k |-> Zeros(32), v |-> <<>>], [k |-> Ones(32), v |-> <<1, 0>>]>>]}
-      [] t.k = "RefCell" -> {CellA, CellB}
+      [] t.k \in {"RefCell", "RefAny"} -> {CellA, CellB}
       [] t.k = "AnyRest" -> {CellA, CellC, CellB}
-IsLeaf(t) == t.k \in {"Zero", "One", "UMax", "UPos", "U", "I", "Bits", "Bool", "VarU", "VarI", "Leq", "AddrInt", "AddrExt", "CC", "RefCell", "AnyRest"}
+IsLeaf(t) == t.k \in {"Zero", "One", "UMax", "UPos", "U", "I", "Bits", "Bool", "VarU", "VarI", "Leq", "AddrInt", "AddrExt", "CC", "RefCell", "RefAny", "AnyRest"}
 Base(t) ==
     CASE IsLeaf(t) -> (CASE t.k \in {"U", "I", "Bits", "Zero", "UMax"} -> Zeros(t.n) [] t.k \in {"One", "UPos"} -> NatBits(1, t.n) [] t.k = "Bool" -> <<0>> [] t.k \in {"VarU", "VarI"} -> <<>>
                          [] t.k = "Leq" -> Zeros(BitLen(t.n)) [] t.k = "AddrInt" -> AddrA [] t.k = "AddrExt" -> <<>>
-                         [] t.k = "CC" -> CC0 [] t.k = "RefCell" -> CellA [] t.k = "AnyRest" -> CellA)
+                         [] t.k = "CC" -> CC0 [] t.k \in {"RefCell", "RefAny"} -> CellA [] t.k = "AnyRest" -> CellA)
       [] t.k = "Maybe" -> <<>>
       [] t.k = "Either" -> [side |-> 0, v |-> Base(t.l)]
       [] t.k = "Ref" -> Base(t.t)
@@ -45,14 +46,16 @@ Base(t) ==
       [] t.k \in {"HmE"} -> <<>>
       [] t.k = "Hm" -> <<[k |-> Zeros(t.n), v |-> Base(t.t)]>>
       [] t.k = "Lite" -> Base(t.t)
-      [] t.k = "HmAug" -> <<[k |-> Zeros(t.n), v |-> Base(t.t), x |-> Base(t.x)]>>
+      [] t.k = "HmAug" -> AugV(<<[k |-> Zeros(t.n), v |-> Base(t.t), x |-> Base(t.x)]>>)
+      [] t.k = "HmAugE" -> [es |-> <<>>, post |-> <<>>, rx |-> Base(t.x)]
       [] t.k \in {"If", "IfBit"} -> Base(t.t)                     \* present in the record, encoded only when the flag is set
       [] t.k = "RefPick" -> [v0 |-> Base(t.t0), v1 |-> Base(t.t1)]
 FieldOf(a, x) == (CHOOSE i \in 1..Len(a.fs) : a.fs[i].name = x)
 BaseAlt(a) == [x \in {"c"} \cup {a.fs[i].name : i \in 1..Len(a.fs)} |-> IF x = "c" THEN a.c ELSE Base(a.fs[FieldOf(a, x)].t)]
 Vary(t) ==
     CASE IsLeaf(t) -> Menu(t)
-      [] t.k = "Maybe" -> {<<>>} \cup {<<x>> : x \in Vary(t.t)}
+      [] t.k = "Maybe" -> IF t.t.k = "RefAny" THEN {<<>>}          \* a type that is not transcribed is never composed: absent only
+                          ELSE {<<>>} \cup {<<x>> : x \in Vary(t.t)}
       [] t.k = "Either" -> {[side |-> 0, v |-> x] : x \in Vary(t.l)} \cup {[side |-> 1, v |-> x] : x \in Vary(t.r)}
       [] t.k = "Ref" -> Vary(t.t)
       [] t.k = "Named" -> UNION {VaryAlt(Schema[t.nm][i]) : i \in 1..Len(Schema[t.nm])}
@@ -62,10 +65,14 @@ Vary(t) ==
                        \cup {<<[k |-> Zeros(t.n), v |-> Base(t.t)], [k |-> Ones(t.n), v |-> Base(t.t)]>>}
       [] t.k \in {"If", "IfBit"} -> Vary(t.t)
       [] t.k = "Lite" -> {Base(t.t), Rich(t.t, 2)}
-      [] t.k = "HmAug" -> {<<[k |-> Msb(t.n), v |-> x, x |-> Rich(t.x, 1)]>> : x \in Vary(t.t)}
-                          \cup {<<[k |-> Zeros(t.n), v |-> Base(t.t), x |-> Base(t.x)], [k |-> Ones(t.n), v |-> Base(t.t), x |-> Rich(t.x, 1)]>>,
-                                <<[k |-> Zeros(t.n), v |-> Base(t.t), x |-> Rich(t.x, 1)], [k |-> NatBits(1, t.n), v |-> Rich(t.t, 2), x |-> Base(t.x)],
-                                  [k |-> Msb(t.n), v |-> Base(t.t), x |-> Rich(t.x, 1)], [k |-> Ones(t.n), v |-> Base(t.t), x |-> Base(t.x)]>>}
+      [] t.k = "HmAug" -> {AugV(<<[k |-> Msb(t.n), v |-> x, x |-> Rich(t.x, 1)]>>) : x \in Vary(t.t)}
+                          \cup {AugV(<<[k |-> Zeros(t.n), v |-> Base(t.t), x |-> Base(t.x)], [k |-> Ones(t.n), v |-> Base(t.t), x |-> Rich(t.x, 1)]>>),
+                                AugV(<<[k |-> Zeros(t.n), v |-> Base(t.t), x |-> Rich(t.x, 1)], [k |-> NatBits(1, t.n), v |-> Rich(t.t, 2), x |-> Base(t.x)],
+                                       [k |-> Msb(t.n), v |-> Base(t.t), x |-> Rich(t.x, 1)], [k |-> Ones(t.n), v |-> Base(t.t), x |-> Base(t.x)]>>)}
+      [] t.k = "HmAugE" -> {[es |-> <<>>, post |-> <<>>, rx |-> Base(t.x)], [es |-> <<>>, post |-> <<>>, rx |-> Rich(t.x, 1)],
+                            [es |-> <<[k |-> Msb(t.n), v |-> Rich(t.t, 2), x |-> Rich(t.x, 1)]>>, post |-> <<>>, rx |-> Base(t.x)],
+                            [es |-> <<[k |-> Zeros(t.n), v |-> Base(t.t), x |-> Rich(t.x, 1)], [k |-> NatBits(1, t.n), v |-> Rich(t.t, 2), x |-> Base(t.x)],
+                                      [k |-> Ones(t.n), v |-> Base(t.t), x |-> Base(t.x)]>>, post |-> <<>>, rx |-> Rich(t.x, 1)]}
       [] t.k = "RefPick" -> {[v0 |-> x, v1 |-> Base(t.t1)] : x \in Vary(t.t0)} \cup {[v0 |-> Base(t.t0), v1 |-> x] : x \in Vary(t.t1)}
 \* vary one field at a time; a conditional field is also varied with its flag switched on
 SetFlag(a, rec, f) == CASE f.t.k = "If" -> [rec EXCEPT ![f.t.fl] = <<1>>]
@@ -94,18 +101,20 @@ RichLeaf(t) ==
       [] t.k = "AddrInt" -> [wc |-> Pat(8), hash |-> Pat(256)]
       [] t.k = "AddrExt" -> <<<<1, 0, 1, 1, 0>>>>
       [] t.k = "CC" -> [grams |-> <<2, 77>>, other |-> <<[k |-> NatBits(5, 32), v |-> <<9>>], [k |-> NatBits(70000, 32), v |-> <<1, 2>>]>>]
-      [] t.k = "RefCell" -> CellB
+      [] t.k \in {"RefCell", "RefAny"} -> CellB
       [] t.k = "AnyRest" -> CellC
 Rich(t, fuel) ==
     CASE IsLeaf(t) -> RichLeaf(t)
-      [] t.k = "Maybe" -> <<Rich(t.t, fuel)>>
+      [] t.k = "Maybe" -> IF t.t.k = "RefAny" THEN <<>> ELSE <<Rich(t.t, fuel)>>
       [] t.k = "Either" -> [side |-> 1, v |-> Rich(t.r, fuel)]
       [] t.k \in {"Ref", "Lite", "If", "IfBit"} -> Rich(t.t, fuel)
       [] t.k = "Named" -> IF fuel = 0 THEN Base(t) ELSE RichAlt(Schema[t.nm][Len(Schema[t.nm])], fuel - 1)
       [] t.k \in {"HmE", "Hm"} -> <<[k |-> [i \in 1..t.n |-> IF i = 1 THEN 0 ELSE (IF i % 3 = 0 THEN 0 ELSE 1)], v |-> Rich(t.t, fuel)],
                                    [k |-> Ones(t.n), v |-> Base(t.t)]>>
-      [] t.k = "HmAug" -> <<[k |-> [i \in 1..t.n |-> IF i = 1 THEN 0 ELSE (IF i % 3 = 0 THEN 0 ELSE 1)], v |-> Rich(t.t, fuel), x |-> Rich(t.x, 1)],
-                            [k |-> Ones(t.n), v |-> Base(t.t), x |-> Base(t.x)]>>
+      [] t.k = "HmAug" -> AugV(<<[k |-> [i \in 1..t.n |-> IF i = 1 THEN 0 ELSE (IF i % 3 = 0 THEN 0 ELSE 1)], v |-> Rich(t.t, fuel), x |-> Rich(t.x, 1)],
+                                 [k |-> Ones(t.n), v |-> Base(t.t), x |-> Base(t.x)]>>)
+      [] t.k = "HmAugE" -> [es |-> <<[k |-> [i \in 1..t.n |-> IF i = 1 THEN 0 ELSE (IF i % 3 = 0 THEN 0 ELSE 1)], v |-> Rich(t.t, fuel), x |-> Rich(t.x, 1)],
+                                      [k |-> Ones(t.n), v |-> Base(t.t), x |-> Base(t.x)]>>, post |-> <<>>, rx |-> Rich(t.x, 1)]
       [] t.k = "RefPick" -> [v0 |-> Rich(t.t0, fuel), v1 |-> Rich(t.t1, fuel)]
 RichAlt(a, fuel) == [x \in {"c"} \cup {a.fs[i].name : i \in 1..Len(a.fs)} |-> IF x = "c" THEN a.c ELSE Rich(a.fs[FieldOf(a, x)].t, fuel)]
 RichFuel == 3
@@ -113,8 +122,10 @@ RichFuel == 3
 RichVary(a) == {RichAlt(a, RichFuel)} \cup UNION {{[RichAlt(a, RichFuel) EXCEPT ![a.fs[i].name] = x] : x \in Vary(a.fs[i].t)} : i \in 1..Len(a.fs)}
 \* every combination of optional parts (Maybe, HashmapE, flag?T, ^(T flag)) present / absent around the rich base;
 \* beyond 6 optional parts: all combinations with at most two present or at most two absent
-OptIdx(a) == {i \in 1..Len(a.fs) : a.fs[i].t.k \in {"Maybe", "HmE", "If", "IfBit", "RefPick"}}
+OptIdx(a) == {i \in 1..Len(a.fs) : (a.fs[i].t.k \in {"Maybe", "HmE", "If", "IfBit", "RefPick"} /\ ~(a.fs[i].t.k = "Maybe" /\ a.fs[i].t.t.k = "RefAny"))
+                                    \/ (a.fs[i].t.k = "Ref" /\ a.fs[i].t.t.k = "HmAugE")}
 Absent(rec, f) == CASE f.t.k \in {"Maybe", "HmE"} -> [rec EXCEPT ![f.name] = <<>>]
+                    [] f.t.k = "Ref" -> [rec EXCEPT ![f.name] = [es |-> <<>>, post |-> <<>>, rx |-> @.rx]]
                     [] f.t.k \in {"If", "RefPick"} -> [rec EXCEPT ![f.t.fl] = <<0>>]
                     [] f.t.k = "IfBit" -> [rec EXCEPT ![f.t.fl] = [i \in 1..Len(@) |-> IF i = Len(@) - f.t.bit THEN 0 ELSE @[i]]]
 OptCombos(a) ==
